@@ -6,7 +6,10 @@
     time) and the values of the functions the model treats as oracles (address derivation, event IDs).  The model
     loop is evaluated on that enumeration and compared with the real result; kinds of mismatch:
     1 validators() slice, 2 inturn outcome, 3 ModuleAccountAddrs, 4 BlockedAddrs, 5 GetMaccPerms keys,
-    6 handler table keys / panic. *)
+    6 handler table keys / panic, 7 verifySeal's recently-signed verdict (through CheckHeaderAndUpdateState on a
+    prepared store); and two kinds that are not about a model but about a PREMISE of a theorem on the real data:
+    8 two module names derive the same address (premise of blocked_addrs_order_independent), 9 two events of the
+    ABI have the same ID (premise of handler_table_order_independent). *)
 From Coq Require Import List String NArith Bool.
 From Teleport Require Import Base.Bytes Base.Outcome Model.MapLoops.
 Import ListNotations.
@@ -22,7 +25,14 @@ Inductive mlcase :=
 | CValidators (entries : list bytes) (number : N) (validator : bytes) (real_sorted : list bytes) (real_inturn : N) (* 0 false 1 true 2 panic *)
 | CMacc (entries : list (bytes * (bytes * bool)))  (* module name -> (derived address, allowedReceivingModAcc[name]) *)
         (real_modaddrs real_blocked : list (bytes * bool)) (real_copy_keys : list bytes)
-| CHandlers (events : list (bytes * bytes)) (known : list bytes) (real_ids : list bytes) (real_panicked : bool).
+| CHandlers (events : list (bytes * bytes)) (known : list bytes) (real_ids : list bytes) (real_panicked : bool)
+| CRecents (entries : list (N * bytes)) (signer : bytes) (number limit : N) (real_verdict : N). (* 1 recently signed, 0 accepted, 3 other error, 2 panic *)
+
+Fixpoint nodup_bytes (l : list bytes) : bool :=
+  match l with
+  | [] => true
+  | a :: t => negb (existsb (bytes_eqb a) t) && nodup_bytes t
+  end.
 
 Definition inturn_code (o : outcome bool) : N := match o with Ok false => 0 | Ok true => 1 | _ => 2 end.
 
@@ -44,13 +54,16 @@ Definition case_mismatch (c : mlcase) : list nat :=
   | CMacc entries real_mod real_blocked real_copy =>
       (if same_map real_mod (insert_loop (fun _ v => fst v) (fun _ _ => true) entries) then [] else [3]) ++
       (if same_map real_blocked (insert_loop (fun _ v => fst v) (fun _ v => negb (snd v)) entries) then [] else [4]) ++
-      (if same_keys real_copy (insert_loop (fun k _ => k) (fun _ v => v) entries) then [] else [5])
+      (if same_keys real_copy (insert_loop (fun k _ => k) (fun _ v => v) entries) then [] else [5]) ++
+      (if nodup_bytes (map (fun e => fst (snd e)) entries) then [] else [8])
   | CHandlers events known real_ids real_panicked =>
       let handler_of n := if existsb (bytes_eqb n) known then Some n else None in
       match handler_loop handler_of (fun id : bytes => id) events with
       | Ok m => if negb real_panicked && same_keys real_ids m then [] else [6]
       | _ => if real_panicked then [] else [6]
-      end
+      end ++ (if nodup_bytes (map snd events) then [] else [9])
+  | CRecents entries signer number limit real =>
+      if N.eqb (if recents_loop signer number limit entries then 1 else 0) real then [] else [7]
   end.
 
 Definition ml_mismatches (cases : list mlcase) : list (nat * nat) :=
